@@ -54,6 +54,10 @@ pub fn dump_tree(n: &dyn IAstNode, out: &mut String) {
     out.push_str(&escape(n.get_identifier()));
     out.push(' ');
     out.push_str(&rng_str(&n.get_range()));
+    if let Some(sel) = selection_range(n) {
+        out.push_str(" @");
+        out.push_str(&rng_str(&sel));
+    }
     if let Some(kids) = n.get_children_ref() {
         for k in kids {
             out.push(' ');
@@ -61,6 +65,57 @@ pub fn dump_tree(n: &dyn IAstNode, out: &mut String) {
         }
     }
     out.push(')');
+}
+
+/// range of the declared name, for the declaration kinds (what outline / links use as selection range)
+pub fn selection_range(n: &dyn IAstNode) -> Option<Range> {
+    use crate::parser::ast::*;
+    let a = n.as_any();
+    if let Some(x) = a.downcast_ref::<AstClass>() {
+        return Some(x.identifier.get_range());
+    }
+    if let Some(x) = a.downcast_ref::<AstModule>() {
+        return Some(x.id.get_range());
+    }
+    if let Some(x) = a.downcast_ref::<AstConstantDeclaration>() {
+        return Some(x.identifier.get_range());
+    }
+    if let Some(x) = a.downcast_ref::<AstTypeDeclaration>() {
+        return Some(x.identifier.get_range());
+    }
+    if let Some(x) = a.downcast_ref::<AstGlobalVariableDeclaration>() {
+        return Some(x.identifier.get_range());
+    }
+    if let Some(x) = a.downcast_ref::<AstProcedure>() {
+        return Some(x.identifier.get_range());
+    }
+    if let Some(x) = a.downcast_ref::<AstFunction>() {
+        return Some(x.identifier.get_range());
+    }
+    if let Some(x) = a.downcast_ref::<AstParameterDeclaration>() {
+        return Some(x.identifier.get_range());
+    }
+    if let Some(x) = a.downcast_ref::<AstLocalVariableDeclaration>() {
+        return Some(x.identifier.get_range());
+    }
+    None
+}
+
+/// `name|kind|range|selection` of every outline symbol, children in `[...]`
+pub fn outline_str(syms: &[lsp_types::DocumentSymbol]) -> String {
+    let r = |r: &lsp_types::Range| format!("{}:{}-{}:{}", r.start.line, r.start.character, r.end.line, r.end.character);
+    syms.iter()
+        .map(|s| {
+            let mut o = format!("{}|{:?}|{}|{}", escape(&s.name), s.kind, r(&s.range), r(&s.selection_range));
+            if let Some(c) = &s.children {
+                o.push('[');
+                o.push_str(&outline_str(c));
+                o.push(']');
+            }
+            o
+        })
+        .collect::<Vec<_>>()
+        .join(",")
 }
 
 /// walks the whole tree through BOTH child views; returns (nodes, views agree)
